@@ -112,7 +112,7 @@ VH = {
 }
 
 
-HOOK_COMMITS = ["541145e"]
+HOOK_COMMITS = ["541145e", "1eb77b5"]
 NOT_YET = {}
 
 INFO = {
